@@ -17,8 +17,22 @@ func (g *vcgen) loadFieldIn(s *State, base string, st types.Type, idx int) strin
 	if _, isS := f.Type().Underlying().(*types.Struct); isS && isDecomposedStruct(f.Type()) {
 		return g.loadStructIn(s, g.emb(st, f.Name(), base), f.Type())
 	}
-	name, _ := g.fieldArr(st, idx)
-	return fmt.Sprintf("(select %s %s)", g.get(s, name), base)
+	name, ft := g.fieldArr(st, idx)
+	term := fmt.Sprintf("(select %s %s)", g.get(s, name), base)
+	if _, modified := s.m[name]; !modified && s.formal == nil {
+		// entry contents of the heap: every reference stored there existed at entry
+		switch ft.Underlying().(type) {
+		case *types.Pointer, *types.Map, *types.Chan, *types.Interface, *types.Slice, *types.Signature:
+			key := "wf:" + term
+			if !g.declared[key] {
+				g.declared[key] = true
+				if f := g.typeFacts(term, ft, g.base("G.alloc")); f != "true" {
+					g.emit("(assert " + f + ")")
+				}
+			}
+		}
+	}
+	return term
 }
 
 // loadStructIn assembles a struct value from the heap.
@@ -337,8 +351,9 @@ func (g *vcgen) instr(ins ssa.Instruction) {
 		r := g.newRef()
 		g.setVal(x, r)
 		g.closures[g.vals[x]] = x
+		g.pureClosureAxiom(x)
 	case *ssa.Range:
-		g.setVal(x, g.newRef())
+		g.vals[x] = "0" // the iterator itself carries no value; its progress is the ghost visited-set
 		if _, ok := x.X.Type().Underlying().(*types.Map); ok {
 			mt := x.X.Type().Underlying().(*types.Map)
 			vn := "G.visited." + x.Name()
@@ -504,11 +519,24 @@ func (g *vcgen) load(x *ssa.UnOp) {
 				return
 			}
 			g.setVal(x, g.loadFieldIn(g.st, ai.base, ai.styp, ai.field))
+			if name, _ := g.fieldArr(ai.styp, ai.field); !g.isFreshObject(ai.base) {
+				if _, modified := g.st.m[name]; !modified {
+					if f := g.typeFacts(g.vals[x], elem, g.base("G.alloc")); f != "true" {
+						g.assume(f)
+					}
+				}
+			}
 			g.assumeType(g.vals[x], elem)
 			return
 		case addrElem:
 			arr := g.elemArr(ai.elemT)
 			g.setVal(x, fmt.Sprintf("(select (select %s %s) %s)", g.get(g.st, arr), ai.base, ai.idx))
+			if _, modified := g.st.m[arr]; !modified {
+				// the array still has its entry contents: references in it existed at entry
+				if f := g.typeFacts(g.vals[x], elem, g.base("G.alloc")); f != "true" {
+					g.assume(f)
+				}
+			}
 			g.assumeType(g.vals[x], elem)
 			return
 		}
@@ -650,10 +678,9 @@ func (g *vcgen) lookup(x *ssa.Lookup) {
 	case *types.Map:
 		m, k := g.val(x.X), g.val(x.Index)
 		has, val, _ := g.mapArrs(xt)
-		h := fmt.Sprintf("(select (select %s %s) %s)", g.get(g.st, has), m, k)
-		v := fmt.Sprintf("(ite %s (select (select %s %s) %s) %s)", h, g.get(g.st, val), m, k, g.s.zero(xt.Elem()))
 		// reading a nil map yields the zero value
-		h = fmt.Sprintf("(and (not (= %s 0)) %s)", m, h)
+		h := fmt.Sprintf("(and (not (= %s 0)) (select (select %s %s) %s))", m, g.get(g.st, has), m, k)
+		v := fmt.Sprintf("(ite %s (select (select %s %s) %s) %s)", h, g.get(g.st, val), m, k, g.s.zero(xt.Elem()))
 		if x.CommaOk {
 			vv := g.define("lk", g.s.sortOf(xt.Elem()), v)
 			g.assumeType(vv, xt.Elem())
